@@ -51,6 +51,9 @@ def run_lattice(ctx, cfg: str, name: str, purpose: str, coverage: bool = False, 
     if not res.ok:
         raise tlc.MachineryError("OrbitLattice.tla run failed:\n" + res.stdout[-3000:])
     orbits, arcs, cases = res.tagged("ORBIT"), res.tagged("ARC"), res.tagged("CASES")
+    # TLC's workers print in a run-dependent order: fix it so that a seed determines everything
+    orbits.sort(key=lambda o: (o["fam"], str(o["rot"]), o["q"]))
+    arcs.sort(key=lambda a: (a["fam"], str(a["rot"]), a["q"], a["dq"]))
     if not orbits or len(cases) != 1:
         raise tlc.MachineryError("OrbitLattice.tla emitted no orbits / case table")
     if coverage:
